@@ -181,6 +181,7 @@ type workload struct {
 	db     *tsdb.DB
 	events []event
 	maxT   map[string]int64
+	used   map[string]bool
 	vctr   int
 	err    error
 }
@@ -223,6 +224,12 @@ func (w *workload) commit(pts []smp) {
 		p.v = float64(w.vctr)
 		mt, seen := w.maxT[p.s]
 		p.ooo = seen && p.t < mt
+		// An out-of-order sample at the timestamp of an existing sample of the series would be accepted next
+		// to it (queries then return one of the two values: C01's business); keep timestamps distinct.
+		for p.ooo && w.used[fmt.Sprintf("%s:%d", p.s, p.t)] {
+			p.t++
+		}
+		w.used[fmt.Sprintf("%s:%d", p.s, p.t)] = true
 		if _, err := app.Append(0, lbls(p.s), p.t, p.v); err != nil {
 			continue
 		}
@@ -255,7 +262,7 @@ func (w *workload) del(s string, a, b int64) {
 // build runs the workload of seed wseed in dir.
 func build(dir string, wseed uint64) ([]event, error) {
 	r := h.NewRng(wseed*7919 + 17)
-	w := &workload{dir: dir, maxT: map[string]int64{}}
+	w := &workload{dir: dir, maxT: map[string]int64{}, used: map[string]bool{}}
 	names := []string{"a", "b", "c"}
 	cur := int64(100 + r.Intn(50))
 	step := func() int64 { cur += int64(120 + r.Intn(120)); return cur }
